@@ -12,3 +12,4 @@ open GN.Props.C10
 #print axioms failure_leaves_buffer_unchanged
 #print axioms model_refines_spec
 #print axioms every_specified_name_is_registered
+#print axioms write_returns_offset_plus_width
